@@ -34,15 +34,16 @@ def strategy(tier):
     return st.tuples(fitted_case(CLASSES), st.booleans()).map(lambda t: dict(t[0], via_json=t[1]))
 
 
-def check_mapping(out: Outcome, obj, case, sample, frame, result, tag=""):
+def check_mapping(out: Outcome, obj, case, sample, frame, result, tag="", labelled_nan=()):
     """Core of C04 on one (input frame, transform result) pair."""
     cfg = case["config"]
     is_carver = cfg["cls"] in CARVERS
     out_dtype = cfg.get("output_dtype", "str") if is_carver else "str"
-    dropna = cfg.get("dropna", True) if is_carver else True
+    dropna_all = cfg.get("dropna", True) if is_carver else True
     str_nan = "__NAN__"
     nontrivial = False
     for feat, raw, spec in feature_views(obj, case):
+        dropna = dropna_all or feat in labelled_nan  # missing values grouped by hand get a label
         quantitative = spec["kind"] in ("continuous", "discrete")
         order = obj.values_orders[feat]
         if feat not in result.columns:
